@@ -463,7 +463,7 @@ def gen_cfg(draw, st, small_ok=True, real_only=False, bits=None):
     if small_ok and not real_only and draw(st.integers(0, 3)) == 0:
         b = draw(st.sampled_from([2, 3, 4]))
         return {"p": env.SMALL[b], "b": b, "r": draw(st.integers(0, 3)), "ignore": False}
-    b = draw(st.sampled_from(bits or [2, 3, 4, 5, 8, 8, 16, 16, 32]))
+    b = draw(st.sampled_from(bits or [2, 3, 4, 5, 8, 8, 16, 16, 32, 64]))
     return {"p": draw(st.sampled_from(fields)), "b": b, "r": draw(st.sampled_from([0, 1, 2, 4, 8, 12])),
             "ignore": False}
 
@@ -492,6 +492,7 @@ class Gen:
         self.labels = set()
         self.guard_forms = ["lc", "lc", "lc", "bool"]
         self.allow_lazy = True
+        self.wrap_values = True      # also draw integers at / beyond the field order (congruent to small ones)
         self.ivals = value_strategy if value_strategy is not None else int_values(st, machine.cfg["b"])
 
     def _pick_weighted(self):
@@ -506,7 +507,7 @@ class Gen:
             ivals = st.integers(0, min((1 << b) - 1, 6))
         if t == "I":
             v = draw(ivals)
-            if not safe and draw(st.integers(0, 13)) == 0:
+            if not safe and self.wrap_values and draw(st.integers(0, 13)) == 0:
                 # a value congruent (mod p) to an existing one but different as an integer, or at the prime itself
                 olds = [m.refval(i) for i, tt in enumerate(m.types) if tt == "I"]
                 base = draw(st.sampled_from(olds)) if olds and draw(st.booleans()) else draw(st.sampled_from([0, 1, -1, -8]))
@@ -565,7 +566,9 @@ class Gen:
         if self.allow_guard and self.allow_lazy and m.depth < 3 and draw(st.integers(0, 11)) == 0:
             return self.lazy_step()
         op = self._pick_weighted()
-        want_in_domain = draw(st.floats(0, 1, allow_nan=False)) >= self.p_ood
+        # inside a false guard / under ignore_errors invalid operands are what the code is there for
+        p_ood = max(self.p_ood, 0.45) if m.ns.rt.ignore_errors() else self.p_ood
+        want_in_domain = draw(st.floats(0, 1, allow_nan=False)) >= p_ood
         refs = None
         for attempt in range(7):
             cand = []
